@@ -56,8 +56,20 @@ func (c *Ctx) spFor(ssoURL, sloURLIdp string, keyName, method string, post bool)
 	// and legal formats the package has no constant for — the policy on the wire is the configured one
 	spForN++
 	s.AuthnNameIDFormat = nameIDFormatPool[spForN%len(nameIDFormatPool)]
+	// what the IdP says it wants (absent, true, false) does not change what an SP configured to sign does
+	switch spForN % 3 {
+	case 1:
+		t := true
+		s.IDPMetadata.IDPSSODescriptors[0].WantAuthnRequestsSigned = &t
+	case 2:
+		f := false
+		s.IDPMetadata.IDPSSODescriptors[0].WantAuthnRequestsSigned = &f
+	}
 	return s
 }
+
+// the library's own random source, as it is before anybody replaces it
+var defaultSAMLRand = saml.RandReader
 
 var spForN int
 var nameIDFormatPool = []saml.NameIDFormat{"", saml.TransientNameIDFormat, saml.EmailAddressNameIDFormat, saml.PersistentNameIDFormat, saml.UnspecifiedNameIDFormat,
@@ -750,6 +762,34 @@ func (c *Ctx) genC12() {
 		if c.chance(0.3) {
 			c.logoutRedirect(idpEndpoints[c.rng.Intn(len(idpEndpoints))], sb.String(), "n", "sp", "", c.chance(0.5))
 		}
+	}
+	// the library's default random source over a long sequence of creations: every ID carries its full 160 random bits (none
+	// ends in a run of zero bytes), none repeats
+	{
+		saved := saml.RandReader
+		saml.RandReader = defaultSAMLRand
+		s := c.spFor(idpSSOURL, idpSSOURL, "sp", "", false)
+		ids := map[string]bool{}
+		orc := ""
+		for i := 0; i < 120 && orc == ""; i++ {
+			r, err := s.MakeAuthenticationRequest(idpSSOURL, saml.HTTPRedirectBinding, saml.HTTPPostBinding)
+			if err != nil {
+				orc = "key=message-id-default-source MakeAuthenticationRequest fails under the default random source: " + err.Error()
+				break
+			}
+			switch {
+			case !strings.HasPrefix(r.ID, "id-") || len(r.ID) < 3+32:
+				orc = fmt.Sprintf("key=message-id-default-source creation %d: ID %q is not id- followed by at least 128 bits in hex", i+1, r.ID)
+			case strings.HasSuffix(r.ID, "0000000000000000"):
+				orc = fmt.Sprintf("key=message-id-default-source creation %d: ID %q ends in eight zero bytes: not all of it was drawn from the random source", i+1, r.ID)
+			case ids[r.ID]:
+				orc = fmt.Sprintf("key=message-id-default-source creation %d: ID %q repeats", i+1, r.ID)
+			}
+			ids[r.ID] = true
+		}
+		saml.RandReader = saved
+		c.count("c12-default-random-source", "120 creations")
+		c.emitOneWay("defaultids", nil, "ok", orc)
 	}
 	// ids: sequences of creations draw from distinct stream positions
 	seen := map[string]bool{}
